@@ -1,7 +1,241 @@
+(* C17 — property theorems (pinned).  Model: Modules.v (transliteration of boa's module/source.rs);
+   vocabulary: Spec_C17.v.  All statements are about `evaluate` = SourceTextModule::evaluate on graphs without
+   top-level await (`sync g`), for every graph (any number of modules, cycles, self-imports, shared dependencies,
+   throwing bodies), every entry module, and every state `Ready g s` between two evaluations (what linking
+   establishes, theorem ready_preserved shows every evaluation re-establishes it: so they hold after any number of
+   evaluations, theorem ready_after_any_sequence).  `length g < fuel` is the explicit fuel bound: the fuel of the
+   model only has to exceed the number of modules.  `cf` selects the current or the repaired variant of the two
+   asynchronous deviations (Modules.cfg): every theorem holds for both. *)
 From Coq Require Import List Arith Bool Lia.
-From C17 Require Import Modules.
+From C17 Require Import Modules Spec_C17 Proofs_C17.
 Import ListNotations.
-Theorem placeholder_fuel : forall g s ops, run_ops 0 g s ops = run_ops 0 g s ops.
-Proof. reflexivity. Qed.
-Check placeholder_fuel : forall g s ops, run_ops 0 g s ops = run_ops 0 g s ops.
-Print Assumptions placeholder_fuel.
+
+(* Evaluate() on a synchronous graph never panics (no Rust assert!/unreachable!/expect fires), never runs out of
+   fuel, and returns a promise *)
+Theorem evaluate_sync_total : forall cf g fuel s m s' r,
+  sync g -> Ready g s -> evaluable (status_of s m) = true -> length g < fuel ->
+  evaluate cf fuel g s m = (s', r) -> exists c, r = ROk c.
+Proof. exact L_total. Qed.
+Check evaluate_sync_total : forall cf g fuel s m s' r,
+  sync g -> Ready g s -> evaluable (status_of s m) = true -> length g < fuel ->
+  evaluate cf fuel g s m = (s', r) -> exists c, r = ROk c.
+Print Assumptions evaluate_sync_total.
+
+(* the between-evaluations invariant is re-established, linked modules stay evaluable *)
+Theorem ready_preserved : forall cf g fuel s m s' r,
+  sync g -> Ready g s -> evaluable (status_of s m) = true -> length g < fuel ->
+  evaluate cf fuel g s m = (s', r) ->
+  Ready g s' /\ forall x, evaluable (status_of s x) = true -> evaluable (status_of s' x) = true.
+Proof. exact L_ready. Qed.
+Check ready_preserved : forall cf g fuel s m s' r,
+  sync g -> Ready g s -> evaluable (status_of s m) = true -> length g < fuel ->
+  evaluate cf fuel g s m = (s', r) ->
+  Ready g s' /\ forall x, evaluable (status_of s x) = true -> evaluable (status_of s' x) = true.
+Print Assumptions ready_preserved.
+
+Theorem ready_after_any_sequence : forall cf g fuel, sync g -> length g < fuel -> forall ms s,
+  Ready g s -> (forall m, In m ms -> evaluable (status_of s m) = true) ->
+  Ready g (eval_seq cf fuel g s ms).
+Proof. exact L_seq. Qed.
+Check ready_after_any_sequence : forall cf g fuel, sync g -> length g < fuel -> forall ms s,
+  Ready g s -> (forall m, In m ms -> evaluable (status_of s m) = true) ->
+  Ready g (eval_seq cf fuel g s ms).
+Print Assumptions ready_after_any_sequence.
+
+(* each body starts at most once and ends at most once — over the whole history (Ready carries the log) *)
+Theorem each_body_at_most_once : forall cf g fuel s m s' r,
+  sync g -> Ready g s -> evaluable (status_of s m) = true -> length g < fuel ->
+  evaluate cf fuel g s m = (s', r) -> NoDup (slog s').
+Proof. exact L_once. Qed.
+Check each_body_at_most_once : forall cf g fuel s m s' r,
+  sync g -> Ready g s -> evaluable (status_of s m) = true -> length g < fuel ->
+  evaluate cf fuel g s m = (s', r) -> NoDup (slog s').
+Print Assumptions each_body_at_most_once.
+
+(* a body starts only after every non-cyclic dependency has ended *)
+Theorem deps_first : forall cf g fuel s m s' r,
+  sync g -> Ready g s -> evaluable (status_of s m) = true -> length g < fuel ->
+  evaluate cf fuel g s m = (s', r) ->
+  forall l1 x l2 d, slog s' = l1 ++ RStart x :: l2 -> ncdep g x d -> In (REnd d) l1.
+Proof. exact L_deps_first. Qed.
+Check deps_first : forall cf g fuel s m s' r,
+  sync g -> Ready g s -> evaluable (status_of s m) = true -> length g < fuel ->
+  evaluate cf fuel g s m = (s', r) ->
+  forall l1 x l2 d, slog s' = l1 ++ RStart x :: l2 -> ncdep g x d -> In (REnd d) l1.
+Print Assumptions deps_first.
+
+(* the bodies run in the specification's depth-first post-order, and the recorded outcome is the walk's result *)
+Theorem order_is_dfs_postorder : forall cf g fuel s m s' r,
+  sync g -> Ready g s -> evaluable (status_of s m) = true -> length g < fuel ->
+  evaluate cf fuel g s m = (s', r) ->
+  forall vis, represents s vis ->
+  exists vis' l thr, dfs g (badf s) vis m vis' l thr /\ slog s' = slog s ++ l /\ represents s' vis' /\
+    recorded s' m = Some (option_map EThrow thr).
+Proof. exact L_order. Qed.
+Check order_is_dfs_postorder : forall cf g fuel s m s' r,
+  sync g -> Ready g s -> evaluable (status_of s m) = true -> length g < fuel ->
+  evaluate cf fuel g s m = (s', r) ->
+  forall vis, represents s vis ->
+  exists vis' l thr, dfs g (badf s) vis m vis' l thr /\ slog s' = slog s ++ l /\ represents s' vis' /\
+    recorded s' m = Some (option_map EThrow thr).
+Print Assumptions order_is_dfs_postorder.
+
+(* an error rejects exactly the dependents: the entry is rejected iff it can reach a throwing module; a recorded
+   error is the throw of a module the rejected module depends on (whose body started and never ended); a module
+   recorded as fulfilled has its whole dependency closure fulfilled and ended *)
+Theorem error_rejects_exactly_dependents : forall cf g fuel s m s' r,
+  sync g -> Ready g s -> evaluable (status_of s m) = true -> length g < fuel ->
+  evaluate cf fuel g s m = (s', r) ->
+  exists e, recorded s' m = Some e /\
+    (e = None <-> forall d, reach g m d -> throws g d = false) /\
+    (forall x err, recorded s' x = Some (Some err) ->
+       exists t, err = EThrow t /\ throws g t = true /\ reach g x t /\
+                 In (RStart t) (slog s') /\ ~ In (REnd t) (slog s')) /\
+    (forall x, recorded s' x = Some None ->
+       forall d, reach g x d -> recorded s' d = Some None /\ In (REnd d) (slog s')).
+Proof. exact L_errors. Qed.
+Check error_rejects_exactly_dependents : forall cf g fuel s m s' r,
+  sync g -> Ready g s -> evaluable (status_of s m) = true -> length g < fuel ->
+  evaluate cf fuel g s m = (s', r) ->
+  exists e, recorded s' m = Some e /\
+    (e = None <-> forall d, reach g m d -> throws g d = false) /\
+    (forall x err, recorded s' x = Some (Some err) ->
+       exists t, err = EThrow t /\ throws g t = true /\ reach g x t /\
+                 In (RStart t) (slog s') /\ ~ In (REnd t) (slog s')) /\
+    (forall x, recorded s' x = Some None ->
+       forall d, reach g x d -> recorded s' d = Some None /\ In (REnd d) (slog s')).
+Print Assumptions error_rejects_exactly_dependents.
+
+(* the promise returned for a module without its own capability is fresh and settled with the recorded outcome *)
+Theorem promise_is_recorded_outcome : forall cf g fuel s m s' r,
+  sync g -> Ready g s -> evaluable (status_of s m) = true -> length g < fuel ->
+  evaluate cf fuel g s m = (s', r) ->
+  forall c, r = ROk c -> tlc_of (status_of s m) = None ->
+  exists e, recorded s' m = Some e /\ promise_state s' c = outcome_of e /\ c = length (gs_proms s).
+Proof. exact L_outcome. Qed.
+Check promise_is_recorded_outcome : forall cf g fuel s m s' r,
+  sync g -> Ready g s -> evaluable (status_of s m) = true -> length g < fuel ->
+  evaluate cf fuel g s m = (s', r) ->
+  forall c, r = ROk c -> tlc_of (status_of s m) = None ->
+  exists e, recorded s' m = Some e /\ promise_state s' c = outcome_of e /\ c = length (gs_proms s).
+Print Assumptions promise_is_recorded_outcome.
+
+(* evaluating an entry module again returns the same promise and changes nothing at all *)
+Theorem evaluate_idempotent : forall cf g fuel s m s' r,
+  sync g -> Ready g s -> evaluable (status_of s m) = true -> length g < fuel ->
+  evaluate cf fuel g s m = (s', r) ->
+  forall a, status_of s m = Linked a -> evaluate cf fuel g s' m = (s', r).
+Proof. exact L_idempotent_first. Qed.
+Check evaluate_idempotent : forall cf g fuel s m s' r,
+  sync g -> Ready g s -> evaluable (status_of s m) = true -> length g < fuel ->
+  evaluate cf fuel g s m = (s', r) ->
+  forall a, status_of s m = Linked a -> evaluate cf fuel g s' m = (s', r).
+Print Assumptions evaluate_idempotent.
+
+(* evaluating any already evaluated module (entry or dependency): no body runs, no status changes, nothing is
+   loaded; the promise is the module's own one, or a fresh one settled with the recorded outcome *)
+Theorem evaluate_returns_recorded_outcome : forall cf g fuel s m s' r tl cr e,
+  sync g -> Ready g s -> status_of s m = Evaluated tl cr e -> length g < fuel ->
+  evaluate cf fuel g s m = (s', r) ->
+  slog s' = slog s /\ (forall x, status_of s' x = status_of s x) /\ gs_loads s' = gs_loads s /\
+  exists c, r = ROk c /\ (tl = None -> promise_state s' c = outcome_of e) /\
+            (forall c0, tl = Some c0 -> c = c0 /\ s' = s).
+Proof. exact L_recorded. Qed.
+Check evaluate_returns_recorded_outcome : forall cf g fuel s m s' r tl cr e,
+  sync g -> Ready g s -> status_of s m = Evaluated tl cr e -> length g < fuel ->
+  evaluate cf fuel g s m = (s', r) ->
+  slog s' = slog s /\ (forall x, status_of s' x = status_of s x) /\ gs_loads s' = gs_loads s /\
+  exists c, r = ROk c /\ (tl = None -> promise_state s' c = outcome_of e) /\
+            (forall c0, tl = Some c0 -> c = c0 /\ s' = s).
+Print Assumptions evaluate_returns_recorded_outcome.
+
+(* Link() then Evaluate(), for any list of entry modules, starting from the engine's initial state (every module
+   unlinked, nothing logged): nothing ever panics or runs out of fuel, every step ends with a promise, the final state is
+   Ready (so every theorem above applies to every intermediate evaluation) and each entry's recorded outcome is
+   "rejected iff it reaches a throwing module". *)
+Theorem link_evaluate_any_sequence : forall cf g fuel, sync g -> nolinkerr g -> wf g -> length g < fuel ->
+  forall ms s s' ok, Ready g s -> settled s -> (forall m, In m ms -> m < length g) ->
+  link_evaluate_seq cf fuel g s ms = (s', ok) -> ok = true /\ Ready g s' /\ settled s'.
+Proof. exact link_evaluate_seq_spec. Qed.
+Check link_evaluate_any_sequence : forall cf g fuel, sync g -> nolinkerr g -> wf g -> length g < fuel ->
+  forall ms s s' ok, Ready g s -> settled s -> (forall m, In m ms -> m < length g) ->
+  link_evaluate_seq cf fuel g s ms = (s', ok) -> ok = true /\ Ready g s' /\ settled s'.
+Print Assumptions link_evaluate_any_sequence.
+
+Theorem link_evaluate_outcome : forall cf g fuel s m s' o,
+  sync g -> nolinkerr g -> wf g -> Ready g s -> settled s -> m < length g -> length g < fuel ->
+  link_evaluate cf fuel g s m = (s', o) ->
+  Ready g s' /\ settled s' /\ exists c e, o = Some c /\ recorded s' m = Some e /\
+    (e = None <-> forall d, reach g m d -> throws g d = false).
+Proof. exact link_evaluate_spec. Qed.
+Check link_evaluate_outcome : forall cf g fuel s m s' o,
+  sync g -> nolinkerr g -> wf g -> Ready g s -> settled s -> m < length g -> length g < fuel ->
+  link_evaluate cf fuel g s m = (s', o) ->
+  Ready g s' /\ settled s' /\ exists c e, o = Some c /\ recorded s' m = Some e /\
+    (e = None <-> forall d, reach g m d -> throws g d = false).
+Print Assumptions link_evaluate_outcome.
+
+Theorem initial_state_ready : forall g, Ready g gs0 /\ settled gs0.
+Proof. exact Ready_gs0. Qed.
+Check initial_state_ready : forall g, Ready g gs0 /\ settled gs0.
+Print Assumptions initial_state_ready.
+
+(* LoadRequestedModules (any graph, also with top-level await; LInv in PLoad_C17.v): in the loader call log every
+   call is an edge of the graph, no resolvable (referrer, specifier) pair occurs twice, and every resolved pair is
+   recorded in the referrer's [[LoadedModules]].  Holds initially and is preserved by every load operation, however it
+   ends (fulfilled, rejected by a missing module, out of fuel).  Not proved: that linking and evaluation leave the
+   loader log and [[LoadedModules]] alone (only `load_job` touches them in Modules.v). *)
+Theorem loaded_once : forall g fuel s m s' r, LInv g s -> load fuel g s m = (s', r) -> LInv g s'.
+Proof. exact load_spec. Qed.
+Check loaded_once : forall g fuel s m s' r, LInv g s -> load fuel g s m = (s', r) -> LInv g s'.
+Print Assumptions loaded_once.
+
+Theorem loaded_once_initially : forall g, LInv g gs0.
+Proof. exact LInv_gs0. Qed.
+Check loaded_once_initially : forall g, LInv g gs0.
+Print Assumptions loaded_once_initially.
+
+(* Link() establishes the hypothesis of the evaluation theorems: on a graph whose modules all resolve their imports
+   (`nolinkerr`: InitializeEnvironment never throws) and whose requests name existing modules (`wf`), from a Ready state
+   in which no module is in the middle of linking (`settled`), Link() of any module m never panics, needs only
+   fuel > |modules|, leaves a settled Ready state in which m can be evaluated, logs nothing and leaves every module
+   that was already linked or evaluated untouched.  (The Rust's extra PreLinked state — DEVIATION 4 of Modules.v — only
+   matters when InitializeEnvironment throws: findings link-error-*.) *)
+Theorem link_establishes_ready : forall g, nolinkerr g -> wf g -> forall fuel s m s' r,
+  Ready g s -> settled s -> m < length g -> length g < fuel -> link fuel g s m = (s', r) ->
+  r = ROk tt /\ Ready g s' /\ settled s' /\ evaluable (status_of s' m) = true /\
+  gs_log s' = gs_log s /\ same_aux s s' /\
+  (forall x, nonun (status_of s x) = true -> status_of s' x = status_of s x).
+Proof. exact link_spec. Qed.
+Check link_establishes_ready : forall g, nolinkerr g -> wf g -> forall fuel s m s' r,
+  Ready g s -> settled s -> m < length g -> length g < fuel -> link fuel g s m = (s', r) ->
+  r = ROk tt /\ Ready g s' /\ settled s' /\ evaluable (status_of s' m) = true /\
+  gs_log s' = gs_log s /\ same_aux s s' /\
+  (forall x, nonun (status_of s x) = true -> status_of s' x = status_of s x).
+Print Assumptions link_establishes_ready.
+
+(* the hypotheses are satisfiable: for every graph whose requests name existing modules, the state in which every
+   module is linked and nothing has run is Ready; the driver's fuel is large enough *)
+Theorem ready_all_linked : forall g, (forall x r, x < length g -> In r (requests g x) -> r < length g) ->
+  Ready g (all_linked g).
+Proof. exact Ready_all_linked. Qed.
+Check ready_all_linked : forall g, (forall x r, x < length g -> In r (requests g x) -> r < length g) ->
+  Ready g (all_linked g).
+Print Assumptions ready_all_linked.
+
+Theorem default_fuel_enough : forall g, length g < default_fuel g.
+Proof. intros g. unfold default_fuel. lia. Qed.
+Check default_fuel_enough : forall g, length g < default_fuel g.
+Print Assumptions default_fuel_enough.
+
+(* a diamond under a two-cycle with a throwing leaf: 0 -> 1 -> {0, 2, 3}, 2 -> 3, 3 throws *)
+Example ex_graph : graph :=
+  [mkMod [1] [] false 0 false false; mkMod [0; 2; 3] [] false 0 false false;
+   mkMod [3] [] false 0 false false; mkMod [] [] true 0 false false].
+Example ex_sync : sync ex_graph.
+Proof. intros m. do 4 (destruct m as [|m]; [reflexivity|]). destruct m; reflexivity. Qed.
+Example ex_run :
+  let '(s', r) := evaluate cfg0 (default_fuel ex_graph) ex_graph (all_linked ex_graph) 0 in
+  slog s' = [RStart 3] /\ recorded s' 0 = Some (Some (EThrow 3)) /\ recorded s' 2 = Some (Some (EThrow 3)) /\
+  r = ROk 0 /\ promise_state s' 0 = PRejected (EThrow 3).
+Proof. vm_compute. repeat split. Qed.
